@@ -84,6 +84,10 @@ class Vector(MutableSequence[TScalar]):
         if not values:
             if not value_type:
                 raise TypeError("You must specify values as non-empty or specify value_type.")
+            if not (
+                isinstance(value_type, type) and issubclass(value_type, (bool, int, float, str))
+            ):
+                raise invalid_arg_type("value_type", "bool, int, float, or str", value_type)
             self._value_type = value_type
         else:
             # Validate the values input
